@@ -60,6 +60,7 @@ func (p *Processor[K, T]) Enqueue(r T) {
 		return
 	}
 
+	verifPoint("queue.enqueue.enter")
 	// Insert or replace the item in the queue
 	// If the item added or replaced is the first one in the queue, we need to know that
 	p.lock.Lock()
@@ -78,6 +79,7 @@ func (p *Processor[K, T]) Dequeue(key K) {
 		return
 	}
 
+	verifPoint("queue.dequeue.enter")
 	// We need to check if this is the next item in the queue, as that requires stopping the processor
 	p.lock.Lock()
 	peek, ok := p.queue.Peek()
@@ -96,6 +98,7 @@ func (p *Processor[K, T]) Close() error {
 	if p.stopped.CompareAndSwap(false, true) {
 		// Send a signal to stop
 		close(p.stopCh)
+		verifPoint("queue.close.stopped")
 		// Blocks until processor loop ends
 		p.processorRunningCh <- struct{}{}
 		return nil
@@ -151,6 +154,7 @@ func (p *Processor[K, T]) processLoop() {
 		p.lock.Lock()
 		r, ok = p.queue.Peek()
 		p.lock.Unlock()
+		verifPoint("queue.loop.peeked", "ok", ok)
 		if !ok {
 			return
 		}
@@ -167,6 +171,7 @@ func (p *Processor[K, T]) processLoop() {
 		default:
 			// Nop, proceed
 		}
+		verifPoint("queue.loop.signals")
 
 		scheduledTime = r.ScheduledTime()
 		deadline = scheduledTime.Sub(p.clock.Now())
@@ -179,6 +184,7 @@ func (p *Processor[K, T]) processLoop() {
 		}
 
 		t = p.clock.NewTimer(deadline)
+		verifPoint("queue.loop.armed")
 		select {
 		// Wait for when it's time to execute the item
 		case <-t.C():
@@ -202,6 +208,7 @@ func (p *Processor[K, T]) processLoop() {
 
 // Executes a item when it's time.
 func (p *Processor[K, T]) execute(r T) {
+	verifPoint("queue.exec.enter")
 	// Pop the item now that we're ready to process it
 	// There's a small chance this is a different item than the one we peeked before
 	p.lock.Lock()
@@ -217,6 +224,7 @@ func (p *Processor[K, T]) execute(r T) {
 	if !ok {
 		return
 	}
+	verifPoint("queue.exec.popped")
 
 	p.executeFn(r)
 }
